@@ -16,6 +16,7 @@ UNITS = {
     "generator_len": {"template": "contracts/generator_len.vrs", "rlimit": 30},
     "aggsig": {"template": "contracts/aggsig.vrs", "rlimit": 60},
     "trusted_lookup": {"template": "contracts/trusted_lookup.vrs", "rlimit": 60},
+    "builders": {"template": "contracts/builders.vrs", "rlimit": 60},
     "costs": {"template": "contracts/costs.vrs", "rlimit": 30},
     "blob_cache": {"template": "contracts/blob_cache.vrs", "rlimit": 60},
     "bls_cache": {"template": "contracts/bls_cache.vrs", "rlimit": 30},
@@ -288,6 +289,20 @@ PROPS["C09"] = {
         "SpendBundle::additions",
     ],
 }
+
+PROPS["C10"] = {
+    "level": "proof",
+    "technique": "Verus contracts on the real BlockBuilder::{add_spend_bundles, cost, finalize} (compressed builder, extracted; generic iterator parameter monomorphised at &[SpendBundle]) with a representation invariant over any call history, under assumed contracts on clvmr's incremental Serializer",
+    "level_text": "Deductive proof, inductive over every sequence of add attempts: each attempt is all-or-nothing (a rejected attempt leaves declared cost, signature and serializer state exactly unchanged, an accepted one adds exactly the declared cost and the aggregate of exactly the batch's signatures), block cost plus closing bytes never exceeds the block limit, finalize's two assert!s are unreachable and the returned cost is <= the limit and <= the running estimate; no arithmetic overflow for declared costs <= the limit.",
+    "level_note": "ASSUMED: Serializer::add/restore/size contracts (restore returns to the exact pre-add state; closing nil costs <= 2 bytes), tree construction calls, Signature::aggregate as uninterpreted group addition. That the finalized generator decodes to exactly the accepted spends and costs what consensus charges depends on serializer correctness and CLVM (not covered). The interned builder is not under contract yet.",
+    "components": [V("builders")],
+    "assumptions": ["clvmr incremental Serializer contracts", "declared cost <= max block cost, sane constants, < 2^32 rejected attempts"],
+    "not_covered": [
+        "InternedBlockBuilder (build_interned_block.rs)",
+        "finalized generator decodes to exactly the accepted spends; returned cost equals the consensus cost of that generator (C04+C08)",
+    ],
+}
+NOT_APPLICABLE["C07"] = "the legacy path's spend list is produced inside CLVM by the ROM_BOOTSTRAP_GENERATOR bytecode executed by clvmr: relating it to the native Rust loop needs a verified CLVM semantics, which no contract within reach of Verus/Kani provides; the Rust-side pieces it shares with the native path (parse_spends loop body = process_single_spend, parse_conditions) are under contract for C01-C04"
 
 for _p in PROPS:
     NOT_APPLICABLE.pop(_p, None)
